@@ -50,7 +50,7 @@ Section Fuel.
           apply bind_nf; [apply expect_nf|]. intros ts'' E. apply expect_len in E.
           destruct sp; apply IH; cbn [base]; lia.
         * destruct (pt_ans T); discriminate.
-      + apply IH. cbn [base]. lia.
+      + destruct (pt_numnum T || negb (kind_eqb (hdk ts') KNum)); [|discriminate]. apply IH. cbn [base]. lia.
     - (* CImpl *)
       destruct (pt_trigger T (hdk ts)); [|discriminate].
       apply bind_nf; [apply IH; cbn [base]; lia|]. intros [r ts1] _. discriminate.
